@@ -4,6 +4,7 @@ TARGETS = [("rel", "%s_reset_fresh" % c) for c in ("DDM", "EDDM", "STEPD", "Page
           [("frame", "%s_update_reads" % c) for c in ("DDM", "EDDM", "STEPD", "PageHinkley")] + \
           [("rel", "%s_index_free" % c) for c in ("DDM", "EDDM", "STEPD", "PageHinkley", "CUSUM")] + \
           [("fn", SCALAR[c] + ".reset") for c in ("DDM", "EDDM", "STEPD", "PageHinkley", "CUSUM")] + \
+          [("fn", SCALAR[c] + ".update") for c in ("DDM", "EDDM", "STEPD", "PageHinkley")] + \
           [("fn", SCALAR["CUSUM"] + ".update"), ("fn", "menelaus.data_drift.kdq_tree:KdqTreeStreaming.reset"), ("fn", "menelaus.data_drift.kdq_tree:KdqTreeBatch.reset"),
            ("fn", "menelaus.data_drift.histogram_density_method:HistogramDensityMethod.reset"),
            ("fn", "menelaus.data_drift.histogram_density_method:HistogramDensityMethod.set_reference")]
@@ -12,7 +13,8 @@ ASSUMPTIONS = A_COMMON + [
     "clean slate = (i) reset() re-establishes the constructor's post-state on every per-epoch field (relational "
     "obligation reset vs __init__), (ii) every field update() reads is a parameter, a per-epoch field, a documented "
     "carry-over, the input-shape memo or the running index (read-set frame obligation), (iii) update() performs that "
-    "reset itself on the update that follows a drift (C01/C05 postconditions use the epoch-start values), (iv) update() is "
+    "reset itself on the update that follows a drift: the epoch counter restarts at 1 there (clause tagged C01,C02 of each update, "
+    "these functions are C02 targets; the C01/C05 postconditions use the epoch-start values), (iv) update() is "
     "blind to the running index: two-run obligation *_index_free - same epoch state, different lifetime sample counts and "
     "correspondingly shifted retraining indices => same epoch state, same drift state, same exceptions and equally "
     "shifted indices afterwards (DDM, EDDM, STEPD, PageHinkley, CUSUM); (i) + (iv) are the base and the step of the "
